@@ -375,10 +375,23 @@ def _propagation(P, R):
             same_item = bool(item_next) and htxt.endswith(".handle") and _data_from_item(fn, e, item_next[0][3])
             # true edge of the evaluation dominates add_activation
             okg = False
+            skip = None
             for g in A.guards_of(fn, add.bb):
                 if isinstance(g["polarity"], bool) and any(x[0] == "call" and x[3] == e.bb for x in walk(g["cond"])):
                     a, v = A.norm_bool(g["cond"], g["polarity"])
                     okg = okg or v is True
+                    if v is True:
+                        # "if": from the match edge every path to the next fact passes add_activation - a match that is
+                        # filtered by anything else (a cache of earlier matches, a flag) leaves a live matching fact unfired
+                        loops_ = sorted([lp for lp in fn.loops() if add.bb in lp["body"]], key=lambda lp: len(lp["body"]))
+                        if loops_:
+                            r = fn.reach(g["target"], avoid_blocks=[add.bb])
+                            if loops_[0]["header"] in r:
+                                skip = g["target"]
+            if skip is not None:
+                R.violate("e", "match-without-activation:%s" % fn.short_name,
+                          "%s: after the rule's node evaluated to true for a fact there is a path to the next fact that does not add an activation: a live fact that satisfies the rule may never fire it (e.g. a stale `already matched` cache)" % fn.short_name, fn, add.line)
+                continue
             node = fmt_sym(strip(fn.sym_operand(e.args[0])), maxdepth=10)
             rule_in_act = fmt_sym(act, maxdepth=14)
             if same_item and okg and node.endswith(".node"):
